@@ -255,6 +255,11 @@ func newChecker(o *storage.LookupOptions, op *predicate.Predicate) *checker {
 // CheckGlobalTimeBounds checks if a predicate should be considered given the global
 // time bounds.
 func (c *checker) CheckGlobalTimeBounds(p *predicate.Predicate) bool {
+	// Indexes are keyed by the partial UUID (predicate ID only), hence the
+	// looked up predicate needs to match the type of the stored one too.
+	if c.op != nil && c.op.Type() != p.Type() {
+		return false
+	}
 	if p.Type() == predicate.Immutable {
 		return true
 	}
